@@ -322,7 +322,7 @@ Fixpoint grun (fuel : nat) (t : gtask) (s : ist) {struct fuel} : gres :=
           | [] => GCrash
           | _ :: rl =>
               let s5 := upd_rules s4 rl in
-              if r_silent r then GOk m s5 kids                       (* extends even when not matched *)
+              if r_silent r then GOk m s5 (if hides r then vis g kids else kids)                    (* extends even when not matched *)
               else
                 let tg := match i_tags s5 with t0 :: _ => Some t0 | [] => None end in
                 let s6 := upd_tags s5 (tl (i_tags s5)) in             (* popped even when not matched *)
